@@ -184,7 +184,7 @@ def _worker(hists):
 
 
 def run(ctx):
-    depth = 5 if ctx.tier == "quick" else 7
+    depth = 6 if ctx.tier == "quick" else 8
     res = explore.bfs(SYSTEM, depth, worker_fn=_worker)
     for sig, hist, detail in res.violations:
         ctx.violation("C14/" + sig, {"history": hist}, detail)
